@@ -1,7 +1,7 @@
 SPECIFICATION Spec
 CONSTANTS
   Conn <- C2
-  MaxLen = 2
+  MaxLen = 3
   MaxIll = 1
   MaxRot = 1
   Kinds <- KSmall
